@@ -273,13 +273,23 @@ def terms_depth2_binary(small):
     return out
 
 
-def make_peg(terms, maxlen, alphabet):
+PRIOR_INPUTS = [None, "ab", "zz", "a"]
+
+
+def make_peg(terms, maxlen, alphabet, prior=False):
     def peg(en):
         t = terms[en.choice("term", len(terms))]
         s = sstr.fresh_str_upto(en, "in", maxlen, alphabet)
-        case = lambda mv: {"term": t, "input": mv.str(s)}  # noqa
+        before = PRIOR_INPUTS[en.choice("prior", len(PRIOR_INPUTS))] if prior else None
+        case = lambda mv: {"term": t, "input": mv.str(s), "prior": before}  # noqa
         en.note_sample(case)
         g = build(t)
+        if before is not None:
+            # the same grammar object has parsed (or failed on) another input before: no trace may be left
+            try:
+                g(before)
+            except Exception:  # noqa
+                pass
         try:
             got = ("ok", g(s))
         except Exception:  # noqa
@@ -562,17 +572,17 @@ def obligations(tier):
     d1 = terms_depth1()
     d2u = terms_depth2_unary()
     obls = [
-        Obligation("O1-peg-depth1", make_peg(d1, 3, alpha), ["peg-semantics"],
-                   desc="every combinator term of depth <= 1 (%d terms) on every input" % len(d1),
+        Obligation("O1-peg-depth1", make_peg(d1, 3, alpha, prior=True), ["peg-semantics"],
+                   desc="every combinator term of depth <= 1 (%d terms) on every input, on a fresh grammar object and on one that has already parsed / failed on another input" % len(d1),
                    bounds={"terms": len(d1), "input length": "<= 3", "alphabet": "UNIVERSE minus newline (the grammar only compares with 'a','b', so z3 splits into a / A / b / B / other)",
-                           "Many lower bound": "0,1,2"},
+                           "Many lower bound": "0,1,2", "earlier input of the same grammar object": PRIOR_INPUTS},
                    stubs=["the {!r} rendering of a symbolic character inside Parser.__call__'s error message yields a placeholder"],
                    outside=["indentation / tag-stack combinators (WithIndent, HangingString, Start/EndTagName)", "error message text"],
-                   encoded=enc, budget_s=600 if thorough else 100, replay="peg", check_sample=True),
+                   encoded=enc, budget_s=900 if thorough else 250, replay="peg", check_sample=True),
         Obligation("O2-peg-depth2", make_peg(d2u + (terms_depth2_binary([["char", "a"], ["string", "ab"], ["eof"]]) if thorough else []), 4 if thorough else 3, alpha), ["peg-semantics"],
                    desc="depth-2 terms: every unary combinator over every binary depth-1 term%s" % (" and every binary combinator over (depth-1 term, leaf of {Char a, String ab, EOF}) in both positions" if thorough else ""),
                    bounds={"terms": len(d2u) + (len(terms_depth2_binary([1, 2, 3])) if thorough else 0), "input length": "<= %d" % (4 if thorough else 3)},
-                   encoded=enc, budget_s=1500 if thorough else 150, replay="peg", check_sample=True),
+                   encoded=enc, budget_s=1500 if thorough else 300, replay="peg", check_sample=True),
         Obligation("O3-taglang", make_tag(2), ["taglang"],
                    desc="tag expressions of depth <= 2 rendered with minimal or full parentheses and symbolic whitespace, evaluated on a symbolic tag-membership vector",
                    bounds={"expressions": len(tag_exprs(2)), "tags": TAGS, "whitespace": "either no whitespace at all or one symbolic whitespace char (space, tab, CR, VT, FF) in every gap and at both ends"},
@@ -608,8 +618,14 @@ def _without(ranges, cp):
 def _native(case):
     if "term" in case:
         t, s = case["term"], case["input"]
+        g = build(t)
+        if case.get("prior") is not None:
+            try:
+                g(case["prior"])
+            except Exception:  # noqa
+                pass
         try:
-            got = ("ok", build(t)(s))
+            got = ("ok", g(s))
         except Exception:  # noqa
             got = ("fail",)
         r = RefPEG(list(map(ord, s)), bool, lambda cps: "".join(map(chr, cps))).run(t, 0)
